@@ -105,6 +105,7 @@ func Start(id string, level string) *Run {
 	}
 	r.loadKnown()
 	r.initShard()
+	r.watchOverrun()
 	if *replay != "" {
 		r.ReplayFile = *replay
 		data, err := os.ReadFile(*replay)
@@ -252,6 +253,7 @@ func jsonStr(v any) string {
 
 // Finish writes the evidence file, prints KNOWN-FINDING / VIOLATION lines and exits.
 func (r *Run) Finish(rule string) {
+	r.mu.Lock() // never released: a watchdog may finish the run while workers still report
 	if r.ReplaySig != "" {
 		fmt.Printf("NOT-REPRODUCED property=%s signature=%q (evaluations=%d)\n", r.ID, r.ReplaySig, r.evals)
 		os.Exit(0)
